@@ -121,6 +121,16 @@ func (s *JavaAPIListener) EnterAnnotation(ctx *parser.AnnotationContext) {
 	if annotationName != "RequestMapping" {
 		if hasEnterClass {
 			addApiMethod(annotationName)
+			// @GetMapping(value = "/p") and @GetMapping(path = "/p")
+			if ctx.ElementValuePairs() != nil {
+				for _, valuePair := range ctx.ElementValuePairs().(*parser.ElementValuePairsContext).AllElementValuePair() {
+					pair := valuePair.(*parser.ElementValuePairContext)
+					key := pair.Identifier().GetText()
+					if key == "value" || key == "path" {
+						currentRestAPI.Uri = baseApiUrl + strings.ReplaceAll(pair.ElementValue().GetText(), "\"", "")
+					}
+				}
+			}
 		}
 
 		return
